@@ -7,8 +7,17 @@
    addresses arena+narena, arena+narena-pstack, arena+parena;  [Avail s] = narena-parena-pstack;
    [pow2 al]: al = 2^k, k < 64;  [size_ok gs size al] := gs = true \/ size + al <= 2^64 and
    [arena_ok ga s bytes al] := bytes + al + parena <= 2^64 \/ (ga = true /\ al + narena <= 2^64)
-   are the no-wrap side conditions: they are REQUIRED for the code as it is (guards gs/ga = false),
-   see C19_wrap_refuted, and vanish (for the size) with the guards of the proposed repair. *)
+   are the no-wrap side conditions.  The first argument(s) of stack_alloc / arena_alloc / step select
+   the code variant: [true] is engine_memory.c as it is now (the size is compared with the available
+   bytes before the size_t arithmetic; /repo commit e39ca69d3), for which the theorems hold for
+   EVERY size; [false] is the code before that repair, kept only under names C19_unguarded_*:
+   there the statements need the side condition and are false without it (C19_unguarded_*_refuted,
+   whose witnesses the check keeps replaying on the implementation so that a revert of the guards
+   alarms).  The check determines on every run, by that replay, which variant the working tree
+   implements and ties that variant by exact correspondence.
+   Histories: [Exec gs gt ga ...] runs operations to completion; each step must satisfy [op_pre]:
+   0 <= size < 2^64, power-of-two alignment, (unguarded only: the side condition), for the arena
+   alignment + narena <= 2^64, user writes confined to a live block, threadlock not set. *)
 From Coq Require Import List ZArith Bool.
 From MJV Require Import Model.Memory Proof.MemoryProof.
 Import ListNotations.
@@ -17,8 +26,8 @@ Open Scope Z_scope.
 (* ---- returned blocks: aligned, inside [arena+parena, stack top), below every live stack region
    (blocks and frames) and above every live arena block; the invariant is re-established with the
    new block live.  Otherwise the error outcome with the state unchanged. *)
-(* partial: for the code as it is the size must satisfy size + alignment <= 2^64 *)
-Theorem C19_stack_block_partial :
+(* code before the repair: the size must satisfy size + alignment <= 2^64 *)
+Theorem C19_unguarded_stack_block_partial :
   forall gt s g ab size al r s',
     Inv s g ab -> pow2 al -> 0 < size < W -> size + al <= W ->
     stack_alloc false gt s size al = (r, s') ->
@@ -29,10 +38,10 @@ Theorem C19_stack_block_partial :
           Top s' = p /\ pbase s' = pbase s /\ parena s' = parena s /\
           Inv s' (GB p size :: g) ab).
 Proof. exact c19_stack_block_partial_lem. Qed.
-Print Assumptions C19_stack_block_partial.
+Print Assumptions C19_unguarded_stack_block_partial.
 
-(* full strength (every size) for the code with the size guard of the proposed repair *)
-Theorem C19_stack_block_guarded :
+(* the code as it is: every size in (0, 2^64) *)
+Theorem C19_stack_block :
   forall gt s g ab size al r s',
     Inv s g ab -> pow2 al -> 0 < size < W ->
     stack_alloc true gt s size al = (r, s') ->
@@ -43,22 +52,22 @@ Theorem C19_stack_block_guarded :
           Top s' = p /\ pbase s' = pbase s /\ parena s' = parena s /\
           Inv s' (GB p size :: g) ab).
 Proof. exact c19_stack_block_guarded_lem. Qed.
-Print Assumptions C19_stack_block_guarded.
+Print Assumptions C19_stack_block.
 
-(* the statement is false of the code as it is when size + alignment > 2^64: in a state that
+(* the statement is false of the code before the repair when size + alignment > 2^64: in a state that
    satisfies the invariant, with fewer than size bytes available, mj_stackAllocByte(2^64-1, 8)
    returns a "block" that starts at the live mark frame and ends beyond the arena, and raises no
-   error.  Replayed on the implementation by the check on every run. *)
-Theorem C19_wrap_refuted :
+   error.  The witness stays in the corpus of the check (it must now give mju_error). *)
+Theorem C19_unguarded_wrap_refuted :
   exists s g ab size al p s',
     Inv s g ab /\ pow2 al /\ 0 < size < W /\ Avail s < size /\
     stack_alloc false false s size al = (RPtr p, s') /\
     Bot s < p + size /\ (exists spb t, In (GF p spb t) g) /\ s' = s.
 Proof. exact wrap_refuted. Qed.
-Print Assumptions C19_wrap_refuted.
+Print Assumptions C19_unguarded_wrap_refuted.
 
 (* arena blocks are aligned relative to d->arena: absolute alignment needs d->arena aligned *)
-Theorem C19_arena_block_partial :
+Theorem C19_unguarded_arena_block_partial :
   forall s g ab bytes al r s',
     Inv s g ab -> pow2 al -> 0 <= bytes < W -> bytes + al + parena s <= W ->
     arena_alloc false s bytes al = (r, s') ->
@@ -69,10 +78,10 @@ Theorem C19_arena_block_partial :
           Lim s' = p + bytes /\ pstack s' = pstack s /\ pbase s' = pbase s /\
           Inv s' g ((p, bytes) :: ab)).
 Proof. exact c19_arena_block_partial_lem. Qed.
-Print Assumptions C19_arena_block_partial.
+Print Assumptions C19_unguarded_arena_block_partial.
 
 (* every size; the alignment must not be absurdly large (al + narena <= 2^64) *)
-Theorem C19_arena_block_guarded :
+Theorem C19_arena_block :
   forall s g ab bytes al r s',
     Inv s g ab -> pow2 al -> 0 <= bytes < W -> al + narena s <= W ->
     arena_alloc true s bytes al = (r, s') ->
@@ -83,18 +92,18 @@ Theorem C19_arena_block_guarded :
           Lim s' = p + bytes /\ pstack s' = pstack s /\ pbase s' = pbase s /\
           Inv s' g ((p, bytes) :: ab)).
 Proof. exact c19_arena_block_guarded_lem. Qed.
-Print Assumptions C19_arena_block_guarded.
+Print Assumptions C19_arena_block.
 
-(* false of the code as it is: a request of 2^64-8 bytes succeeds with 240 bytes available and
+(* false of the code before the repair: a request of 2^64-8 bytes succeeds with 240 bytes available and
    moves parena backwards; the next honest request then overlaps a live arena block *)
-Theorem C19_arena_wrap_refuted :
+Theorem C19_unguarded_arena_wrap_refuted :
   exists s g ab bytes p s' p2 s'',
     Inv s g ab /\ 0 <= bytes < W /\ Avail s < bytes /\
     arena_alloc false s bytes 1 = (RPtr p, s') /\ parena s' < parena s /\
     arena_alloc false s' 8 1 = (RPtr p2, s'') /\
     (exists a n, In (a, n) ab /\ a <= p2 < a + n).
 Proof. exact arena_wrap_refuted. Qed.
-Print Assumptions C19_arena_wrap_refuted.
+Print Assumptions C19_unguarded_arena_wrap_refuted.
 
 (* mj_markStack: the frame is a block like any other, or the error outcome *)
 Theorem C19_mark :
@@ -143,33 +152,33 @@ Proof. exact bal_restores. Qed.
 Print Assumptions C19_balanced.
 
 (* ---- exhaustion *)
-Theorem C19_exhaust_stack_partial :
+Theorem C19_unguarded_exhaust_stack_partial :
   forall gt s g ab size al,
     Inv s g ab -> pow2 al -> 0 < size < W -> size + al <= W -> Avail s < size ->
     stack_alloc false gt s size al = (RErr, s).
 Proof. exact c19_exhaust_stack_partial_lem. Qed.
-Print Assumptions C19_exhaust_stack_partial.
+Print Assumptions C19_unguarded_exhaust_stack_partial.
 
-Theorem C19_exhaust_stack_guarded :
+Theorem C19_exhaust_stack :
   forall gt s g ab size al,
     Inv s g ab -> pow2 al -> 0 < size < W -> Avail s < size ->
     stack_alloc true gt s size al = (RErr, s).
 Proof. exact c19_exhaust_stack_guarded_lem. Qed.
-Print Assumptions C19_exhaust_stack_guarded.
+Print Assumptions C19_exhaust_stack.
 
-Theorem C19_exhaust_arena_partial :
+Theorem C19_unguarded_exhaust_arena_partial :
   forall s g ab bytes al,
     Inv s g ab -> pow2 al -> 0 <= bytes < W -> bytes + al + parena s <= W -> Avail s < bytes ->
     arena_alloc false s bytes al = (RNull, s).
 Proof. exact c19_exhaust_arena_partial_lem. Qed.
-Print Assumptions C19_exhaust_arena_partial.
+Print Assumptions C19_unguarded_exhaust_arena_partial.
 
-Theorem C19_exhaust_arena_guarded :
+Theorem C19_exhaust_arena :
   forall s g ab bytes al,
     Inv s g ab -> pow2 al -> 0 <= bytes < W -> al + narena s <= W -> Avail s < bytes ->
     arena_alloc true s bytes al = (RNull, s).
 Proof. exact c19_exhaust_arena_guarded_lem. Qed.
-Print Assumptions C19_exhaust_arena_guarded.
+Print Assumptions C19_exhaust_arena.
 
 (* ---- concurrent reservations under the thread lock.  A schedule is any list of actions
    "thread t executes the fetch-add of stackalloc(size, al)" / "thread t executes the rest of its
@@ -198,14 +207,14 @@ Theorem C19_tl_sequential :
 Proof. exact stack_alloc_tl. Qed.
 Print Assumptions C19_tl_sequential.
 
-(* false of the thread-lock branch as it is: size + alignment - 1 wraps *)
-Theorem C19_tl_wrap_refuted :
+(* false of the thread-lock branch before the repair: size + alignment - 1 wraps *)
+Theorem C19_unguarded_tl_wrap_refuted :
   exists s g ab size p s',
     Inv s g ab /\ 0 < size < W /\ Avail s < size /\
     stack_alloc false false (lock s) size 8 = (RPtr p, s') /\
     (exists n, In (GB p n) g) /\ Bot s < p + size.
 Proof. exact tl_wrap_refuted. Qed.
-Print Assumptions C19_tl_wrap_refuted.
+Print Assumptions C19_unguarded_tl_wrap_refuted.
 
 (* ---- usage statistics are upper bounds *)
 Theorem C19_stats :
@@ -218,9 +227,16 @@ Print Assumptions C19_stats.
 (* non-vacuity: a concrete history with a nested frame, a block, an arena block and a user write
    into the block runs to completion from a fresh mjData *)
 Example C19_example :
-  run false false false (init 4096 256 0 0)
+  run true true true (init 4096 256 0 0)
       [OMark; OSAlloc 10 8; OWrite 4312 10 7; OAAlloc 16 8; OMark; OSAlloc 300 1; OFree; OFree]
   = [[0; 0; 24; 0; 4328; 24; 24]; [2; 4312; 40; 0; 4328; 40; 40]; [2; 4096; 40; 16; 4328; 40; 56];
      [0; 0; 64; 16; 4288; 64; 80]; [3; 0; 64; 16; 4288; 64; 80]; [0; 0; 40; 16; 4328; 64; 80];
      [0; 0; 0; 16; 0; 64; 80]].
 Proof. vm_compute. reflexivity. Qed.
+
+(* the former wrap witness on the code as it is: error outcome, state unchanged *)
+Example C19_example_wrap_now_rejected :
+  stack_alloc true true wit_s (W - 1) 8 = (RErr, wit_s) /\
+  arena_alloc true wit_a (W - 8) 1 = (RNull, wit_a) /\
+  stack_alloc true true (lock wit_t) (W - 1) 8 = (RErr, lock wit_t).
+Proof. vm_compute. repeat split; reflexivity. Qed.
